@@ -36,15 +36,30 @@ def run(chk):
     chk.rule("C05.R3", "observation term == Mean[rows](sum_c w_c (u_c(input_i; params_i) - val_ic)^2), observed parameters "
                        "row-aligned", floor=3)
 
-    # ---------------- R1 normalisation
+    # ---------------- R1 normalisation (also with a single Monte-Carlo sample / a single time: alg.unit_axes)
+    from ..alg import unit_axes
+    r1_cfgs = []
     for eq_type in ('statio_PDE', 'nonstatio_PDE'):
         for kind in ('PINN', 'SPINN'):
             for d, m_u in (((1, 1), (2, 1), (2, 2)) if thorough else ((2, 1), (2, 2))):
                 if kind == 'SPINN' and m_u > 1:
                     continue   # a SPINN has no notion of solution slice
+                r1_cfgs.append((eq_type, kind, d, m_u, ()))
+        r1_cfgs.append((eq_type, 'PINN', 2, 1, ("S",)))
+    r1_cfgs.append(('nonstatio_PDE', 'PINN', 2, 1, ("B",)))
+    r1_cfgs.append(('nonstatio_PDE', 'PINN', 1, 1, ("B", "S")))
+    for eq_type, kind, d, m_u, units in r1_cfgs:
+        for _ in (0,):
+            for _ in (0,):
                 cfg = {"loss": eq_type, "net": kind, "d": d, "outputs": m_u, "slice_solution": "[0:1]"}
+                if units:
+                    cfg["single_row_axes"] = [dict(S="normalisation samples", B="times")[x] for x in units]
 
-                def go(eq_type=eq_type, kind=kind, d=d, m_u=m_u):
+                def go(eq_type=eq_type, kind=kind, d=d, m_u=m_u, units=units):
+                    with unit_axes(*units):
+                        return go_(eq_type, kind, d, m_u)
+
+                def go_(eq_type, kind, d, m_u):
                     S = SingleLoss(E, eq_type, kind, d=d, m_u=m_u, terms=('norm',))
                     S.u.slice_solution = slice(0, 1)     # the solution is output 0, other outputs are auxiliary
                     total, terms = S.evaluate()
